@@ -121,4 +121,31 @@ example : (pipeline fileEx [] attrEx .kotlin).map (·.libName) = some (some "Ove
 example : (pipeline fileEx [] attrEx .js).map (·.libName) = some (some "FromAttr") := by decide
 example : effective fileEx [] attrEx .kotlin .libName = some (.str "Override") := by decide
 
+/-- **A `--config` value may itself contain `=`**: the argument is split at its *first* `=`; whatever follows —
+    a URL with a query, a quoted assignment — is the value. -/
+theorem cli_arg_splits_at_first_eq (k v : List Char) (hk : '=' ∉ k) :
+    splitFirstEq (k ++ '=' :: v) = some (k, v) := by
+  induction k with
+  | nil => simp [splitFirstEq]
+  | cons c cs ih =>
+    have hc : c ≠ '=' := fun h => hk (by simp [h])
+    have hcs : '=' ∉ cs := fun h => hk (by simp [h])
+    simp [splitFirstEq, hc, ih hcs]
+
+/-- **A stray argument without `=` is skipped and nothing else**: the settings before and after it count as if it
+    were not there. -/
+theorem stray_cli_arg_skipped (pre post : List (List Char)) (a : List Char) (ha : '=' ∉ a) :
+    readCliArgs (pre ++ a :: post) = readCliArgs (pre ++ post) := by
+  have hnone : splitFirstEq a = none := by
+    induction a with
+    | nil => rfl
+    | cons c cs ih =>
+      have hc : c ≠ '=' := fun h => ha (by simp [h])
+      have hcs : '=' ∉ cs := fun h => ha (by simp [h])
+      simp [splitFirstEq, hc, ih hcs]
+  simp [readCliArgs, List.filterMap_append, readCliArg, hnone]
+
+example : readCliArg "demo_gen.module_name=https://cdn.example/g.mjs?v=2".toList
+    = some ("demo_gen.module_name", .str "https://cdn.example/g.mjs?v=2") := by decide
+
 end DiplomatModel.Props.C17
